@@ -15,7 +15,7 @@ import (
 type c04Case struct {
 	MaxNodes, CloudMax, Nodes, Tainted, Util int
 	Fleet                                    bool
-	Kind                                     string // normal | belowmin | fromzero
+	Kind                                     string // normal | belowmin | belowmin-cordoned | fromzero
 }
 
 func c04Build(p c04Case) *h.Scenario {
@@ -30,6 +30,11 @@ func c04Build(p c04Case) *h.Scenario {
 	if p.Kind == "belowmin" {
 		g.Opts.MinNodes = u + 1
 	}
+	if p.Kind == "belowmin-cordoned" {
+		// the "tainted" count is used as the number of cordoned nodes: nothing can be untainted, so the
+		// recovery has to ask the cloud
+		g.Opts.MinNodes = u + 1
+	}
 	return &h.Scenario{
 		Name:    fmt.Sprintf("c04.grid"),
 		Groups:  []h.GroupSpec{g},
@@ -40,7 +45,11 @@ func c04Build(p c04Case) *h.Scenario {
 			for i := 0; i < p.Nodes; i++ {
 				o := sim.NodeOpt{Age: time.Duration(10+i) * Q}
 				if i >= u {
-					o.TaintAge = dp(1 * Q)
+					if p.Kind == "belowmin-cordoned" {
+						o.Cordoned = true
+					} else {
+						o.TaintAge = dp(1 * Q)
+					}
 				}
 				hh.W.AddNode(a, o)
 			}
@@ -63,7 +72,7 @@ func c04Grid(t *testing.T, tier string, shard, shards int, c *h.Collector) {
 				for tainted := 0; tainted <= 2 && tainted <= nodes; tainted++ {
 					for _, util := range []int{80, 150, 200, 400} {
 						for _, fleet := range []bool{false, true} {
-							for _, kind := range []string{"normal", "belowmin", "fromzero"} {
+							for _, kind := range []string{"normal", "belowmin", "belowmin-cordoned", "fromzero"} {
 								u := nodes - tainted
 								switch kind {
 								case "normal":
@@ -72,6 +81,10 @@ func c04Grid(t *testing.T, tier string, shard, shards int, c *h.Collector) {
 									}
 								case "belowmin":
 									if tainted == 0 || u+1 >= maxN {
+										continue
+									}
+								case "belowmin-cordoned":
+									if tainted == 0 || u+1 >= maxN || u+1 > nodes {
 										continue
 									}
 								case "fromzero":
